@@ -74,15 +74,14 @@ func ToV3WithLoader(doc2 *openapi2.T, loader *openapi3.Loader, location *url.URL
 		}
 	}
 
-	if paths := doc2.Paths; len(paths) != 0 {
-		doc3.Paths = openapi3.NewPathsWithCapacity(len(paths))
-		for path, pathItem := range paths {
-			r, err := ToV3PathItem(doc2, doc3.Components, pathItem, doc2.Consumes)
-			if err != nil {
-				return nil, err
-			}
-			doc3.Paths.Set(path, r)
+	// OpenAPI 3 requires the paths object, even when there is no path
+	doc3.Paths = openapi3.NewPathsWithCapacity(len(doc2.Paths))
+	for path, pathItem := range doc2.Paths {
+		r, err := ToV3PathItem(doc2, doc3.Components, pathItem, doc2.Consumes)
+		if err != nil {
+			return nil, err
 		}
+		doc3.Paths.Set(path, r)
 	}
 
 	if responses := doc2.Responses; len(responses) != 0 {
